@@ -34,9 +34,24 @@ Definition os_push_gen (nl : bool) (o : ostream) (s : str) : ostream :=
        (os_offset o + length s) (os_line o) (os_column o + length s).
 Definition os_push (o : ostream) (s : str) : ostream := os_push_gen false o s.
 
+(* line feeds in a string, and the column reached after writing it from column [col]
+   (a line feed resets the column) *)
+Fixpoint lf_count (s : str) : nat :=
+  match s with
+  | [] => 0
+  | c :: r => (if (c =? c_nl)%N then 1 else 0) + lf_count r
+  end.
+Fixpoint col_after (col : nat) (s : str) : nat :=
+  match s with
+  | [] => col
+  | c :: r => if (c =? c_nl)%N then col_after 0 r else col_after (S col) r
+  end.
+
+(* push_field(index, placeholder): the field text is written as is; line and column follow
+   the line feeds it contains *)
 Definition os_push_field (o : ostream) (idx : N) (ph : str) : ostream :=
   mkOs (EvField idx ph (os_offset o) (os_line o) (os_column o) :: os_events o) (os_level o)
-       (os_offset o + length ph) (os_line o) (os_column o + length ph).
+       (os_offset o + length ph) (os_line o + lf_count ph) (col_after (os_column o) ph).
 
 (* push_indent(size) *)
 Definition os_push_indent (f : ofmt) (o : ostream) (size : Z) : ostream :=
